@@ -2,7 +2,11 @@ package mon
 
 import (
 	"crypto"
+	"crypto/ecdsa"
+	"crypto/elliptic"
+	"encoding/base64"
 	"fmt"
+	"math/big"
 	"sync"
 
 	"github.com/miekg/dns"
@@ -63,4 +67,40 @@ func freshKey(alg uint8, bits int, owner string, flags uint16) (*sigKey, error) 
 		return nil, fmt.Errorf("generated key is not a crypto.Signer")
 	}
 	return &sigKey{Alg: alg, Bits: bits, Key: k, Priv: s}, nil
+}
+
+// shortScalarKey builds an ECDSA key whose private scalar has a leading zero octet (as about one
+// generated key in 256 has), so that fixed-width export/import of the scalar is exercised.
+func shortScalarKey(alg uint8, owner string, flags uint16, seed uint64) (*sigKey, error) {
+	var curve elliptic.Curve
+	var n int
+	switch alg {
+	case dns.ECDSAP256SHA256:
+		curve, n = elliptic.P256(), 32
+	case dns.ECDSAP384SHA384:
+		curve, n = elliptic.P384(), 48
+	default:
+		return nil, fmt.Errorf("not an ECDSA algorithm")
+	}
+	d := make([]byte, n)
+	x := seed*0x9E3779B97F4A7C15 + 1
+	for i := 1 + int(seed%2); i < n; i++ { // one or two leading zero octets
+		x ^= x << 13
+		x ^= x >> 7
+		x ^= x << 17
+		d[i] = byte(x)
+	}
+	if d[n-1] == 0 {
+		d[n-1] = 1
+	}
+	priv := new(ecdsa.PrivateKey)
+	priv.Curve = curve
+	priv.D = new(big.Int).SetBytes(d)
+	priv.X, priv.Y = curve.ScalarBaseMult(d)
+	pub := make([]byte, 2*n)
+	priv.X.FillBytes(pub[:n])
+	priv.Y.FillBytes(pub[n:])
+	k := &dns.DNSKEY{Hdr: dns.RR_Header{Name: owner, Rrtype: dns.TypeDNSKEY, Class: dns.ClassINET, Ttl: 3600}, Flags: flags, Protocol: 3, Algorithm: alg,
+		PublicKey: base64.StdEncoding.EncodeToString(pub)}
+	return &sigKey{Alg: alg, Bits: n * 8, Key: k, Priv: priv}, nil
 }
